@@ -13,7 +13,7 @@
           no oracle); a NaN matrix on the Go side iff the model divides by zero.
    XPre   Posterior panics iff some listed state is outside [0,m). *)
 From Coq Require Import List Arith Bool ZArith QArith Qcanon Qabs Floats.
-From ADV Require Import Base.Corr C15.Model C15.ModelBuf C15.ModelCH C15.Corr.
+From ADV Require Import Base.Corr C15.Model C15.ModelBuf C15.ModelCH C15.ModelSet C15.Corr.
 Import ListNotations.
 Open Scope nat_scope.
 
@@ -41,6 +41,12 @@ Section SEQ2.
   Variable lmap : list nat.
   Variable fPi' : list float.
   Variable fTr' fTf' : list (list float).
+  (* relative slack of the exact-arithmetic optimality test of Go's Viterbi path: 0 when the
+     model's matrices are exact closed forms of the dyadic inputs; positive for the constrained
+     HMM, whose model matrices are computed from the binary64 Lagrange multipliers Newton
+     returned (oracle data that carry rounding error: an exact tie of two paths in the ideal
+     matrices becomes a 2^-52 preference in the model, while Go's float tables see a tie) *)
+  Variable vtol : Q.
   Variable s : hseq.
   Let n := sN s.
   Let Pi := vecf 0%Qc lPi.
@@ -98,15 +104,17 @@ Section SEQ2.
     let best := qmax (map wt (paths m n)) in
     list_eqb Nat.eqb vf (gVit s) &&
     Nat.eqb (length (gVit s)) n && forallb (fun x => x <? m) (gVit s) &&
-    Qc_eqb (wt (gVit s)) best && Qc_eqb (wt vq) best.
+    Qle_bool (this best * (1 - vtol)) (this (wt (gVit s))) && Qle_bool (this (wt (gVit s))) (this best) &&
+    Qc_eqb (wt vq) best.
   Definition seq2_fails : list nat :=
     (if chk2_logpdf then [] else [1]) ++ (if chk2_alpha then [] else [2]) ++ (if chk2_beta then [] else [3]) ++
     (if chk2_bits then [] else [4]) ++ (if chk2_marg then [] else [5]) ++ (if chk2_post then [] else [6]) ++
     (if chk2_vit then [] else [7]).
 End SEQ2.
 
-Definition seqs_fails m lPi lTr lTf lmap fPi' fTr' fTf' (ss : list hseq) : list nat :=
-  flat_map (fun ks => map (fun x => 10 * (S (fst ks)) + x) (seq2_fails m lPi lTr lTf lmap fPi' fTr' fTf' (snd ks)))
+Definition vtolOracle : Q := 1 # (2 ^ 30).
+Definition seqs_fails m lPi lTr lTf lmap fPi' fTr' fTf' (vtol : Q) (ss : list hseq) : list nat :=
+  flat_map (fun ks => map (fun x => 10 * (S (fst ks)) + x) (seq2_fails m lPi lTr lTf lmap fPi' fTr' fTf' vtol (snd ks)))
            (combine (seq 0 (length ss)) ss).
 
 (* ---- constrained HMM ---- *)
@@ -160,7 +168,7 @@ Definition chfails (c : chcase) : list nat :=
           (if list_rel approx lpi (ccPi c) then [] else [7]) ++
           (if tied_ok (ccT1 c) gs && tied_ok (ccTr c) gs then [] else [8]) ++
           (if rows_stochastic n (ccT1 c) && rows_stochastic n (ccTr c) then [] else [9]) ++
-          seqs_fails n lpi l2 ltf (ccMap c) (ccfPi c) (ccfTr c) (ccfTf c) (ccSeqs c)
+          seqs_fails n lpi l2 ltf (ccMap c) (ccfPi c) (ccfTr c) (ccfTf c) vtolOracle (ccSeqs c)
       end
   end.
 
@@ -194,9 +202,48 @@ Definition hhfails (c : hhcase) : list nat :=
       | Some Tf =>
           let ltf := freeze n Tf in
           (if list_rel (list_rel approx) ltf (hhTf c) then [] else [6]) ++
-          seqs_fails n lpi l2 ltf (hhMap c) (hhfPi c) (hhfTr c) (hhfTf c) (hhSeqs c)
+          seqs_fails n lpi l2 ltf (hhMap c) (hhfPi c) (hhfTr c) (hhfTf c) 0 (hhSeqs c)
       end
   end.
+
+
+(* ---- round 5: setter histories on generic.Hmm (ModelSet.v) ---- *)
+Inductive jop := JStart (l : list Z) | JFinal (l : list Z) | JParams (pi : list Q) (tr : list (list Q)) | JClone.
+Definition sop_of (o : jop) : @sop Qc :=
+  match o with
+  | JStart l => OStart l
+  | JFinal l => OFinal l
+  | JParams pi tr => OParams (qcl pi) (map qcl tr)
+  | JClone => OClone
+  end.
+Record hscase := mkHS {
+  hsM : nat; hsPiRaw : list Q; hsTrRaw : list (list Q); hsMap : list nat;
+  hsOps : list jop;
+  (* after the constructor and after every call: error returned?, exp of Pi, Tr, Tf of the object *)
+  hsSteps : list (bool * list gres * list (list gres) * list (list gres));
+  hsfPi : list float; hsfTr : list (list float); hsfTf : list (list float);   (* log-values after the last call *)
+  hsSeqs : list hseq
+}.
+Definition step_ok (se : @hst Qc * bool) (ob : bool * list gres * list (list gres) * list (list gres)) : bool :=
+  let '(er, gpi, gtr, gtf) := ob in
+  Bool.eqb (snd se) er && list_rel approx (stPi (fst se)) gpi &&
+  list_rel (list_rel approx) (stTr (fst se)) gtr && list_rel (list_rel approx) (stTf (fst se)) gtf.
+Fixpoint steps_fails (k : nat) (ms : list (@hst Qc * bool))
+         (obs : list (bool * list gres * list (list gres) * list (list gres))) : list nat :=
+  match ms, obs with
+  | [], [] => []
+  | se :: ms', ob :: obs' => (if step_ok se ob then [] else [1000 + k]) ++ steps_fails (S k) ms' obs'
+  | _, _ => [999]
+  end.
+Definition hsfails (c : hscase) : list nat :=
+  let m := hsM c in
+  let ops := map sop_of (hsOps c) in
+  let s0 := init OpsQc (qcl (hsPiRaw c)) (map qcl (hsTrRaw c)) in
+  let sF := run OpsQc m ops s0 in
+  steps_fails 0 ((s0, false) :: trace OpsQc m ops s0) (hsSteps c) ++
+  (* the derived state of the model is the one the history calls for (proved: ProofsSet.run_tf) *)
+  (if list_eqb (list_eqb Qc_eqb) (stTf sF) (tf_of OpsQc (spec_tr ops (stTr s0)) (spec_final m ops None)) then [] else [998]) ++
+  seqs_fails m (stPi sF) (stTr sF) (stTf sF) (hsMap c) (hsfPi c) (hsfTr c) (hsfTf c) 0 (hsSeqs c).
 
 (* ---- Posterior with repeated states on the plain cases of Corr.v ---- *)
 Definition dup_fails (c : case) : list nat :=
@@ -216,13 +263,15 @@ Inductive xcase :=
 | XC (c : case)
 | XChmm (c : chcase)
 | XHhmm (c : hhcase)
-| XPre (m n : nat) (sts : list (list Z)) (panicked iserr : bool).
+| XPre (m n : nat) (sts : list (list Z)) (panicked iserr : bool)
+| XHist (c : hscase).
 Definition xfails (c : xcase) : list nat :=
   match c with
   | XC c => fails c ++ dup_fails c
   | XChmm c => chfails c
   | XHhmm c => hhfails c
   | XPre m n sts p e => if pre_ok m n sts p e then [] else [1]
+  | XHist c => hsfails c
   end.
 Definition xcheck (c : xcase) : bool := match xfails c with [] => true | _ => false end.
 Definition xmism (cs : list xcase) : list nat := mismatches xcheck cs.
